@@ -94,10 +94,10 @@ func checkCmd(args []string) int {
 		seed, _ = strconv.Atoi(s)
 	}
 	t0 := time.Now()
-	timeout := 20
+	timeout := 45
 	needAll := false
 	if tier == "thorough" {
-		timeout = 90
+		timeout = 180
 		needAll = true
 	}
 	evPath := filepath.Join(verifDir, "evidence", prop+".json")
@@ -164,6 +164,9 @@ func checkCmd(args []string) int {
 		}
 		var mine []*Obligation
 		for _, o := range r.Obls {
+			if o.Cover && strings.HasSuffix(o.ID, "cover:exit") && tier != "thorough" {
+				continue // reachability of the exit is only attempted in the thorough tier
+			}
 			if hasProp(o.Props, prop) {
 				mine = append(mine, o)
 			}
@@ -182,7 +185,7 @@ func checkCmd(args []string) int {
 	if !*keep {
 		defer os.RemoveAll(smtDir)
 	}
-	pool := make(chan struct{}, 6)
+	pool := make(chan struct{}, 5)
 	for _, j := range jobs {
 		e.renderScripts(j.obls, j.r.Axioms, j.r.Assumes)
 	}
